@@ -462,6 +462,7 @@ class KwSeen(dict):
 
 # keyword arguments of library functions that have no influence on the abstract value (stated one by one)
 NATIVE_KW_IGNORED = {
+    'collections.namedtuple': None, 'dataclasses.replace': None,
     'warnings.warn': {'stacklevel'},
     'numpy.isclose': {'equal_nan'}, 'numpy.allclose': {'equal_nan'},
     'scipy.optimize.minimize': None,       # the solver is uninterpreted: rules look at what it is given
@@ -499,7 +500,7 @@ BUILTIN_EXC = {'RuntimeWarning', 'UserWarning', 'DeprecationWarning', 'Warning',
 
 # decorators whose effect on calls is modelled (binding of methods, memoisation) or nil (metadata, abstractness)
 KNOWN_DECORATORS = frozenset(('classmethod', 'staticmethod', 'property', 'lru_cache', 'cache', 'abstractmethod',
-                              'wraps'))
+                              'wraps', 'override', 'final', 'no_type_check'))      # the typing markers change nothing
 FILE_METHODS = frozenset(a_ for a_ in dir(__import__('io').TextIOWrapper) if not a_.startswith('__'))
 LOCAL_IMPORTS = '\x00imports'      # key of the per-scope table of function-local imports
 PLACEHOLDER_LOG = []     # where a formatted text had no abstract spelling and was replaced by a placeholder
@@ -927,6 +928,11 @@ class Interp:
             return v            # whole numbers survive every numeric format (at the widths considered)
         if v.is_const() or v.iszero():
             return v            # concrete numbers are printed as literal text, not as fields
+        if plain in ('', 's', 'r'):
+            return v            # str / repr / '{}' of a float is the shortest text that reads back as the same float
+        m_ = re.fullmatch(r'\.(\d+)([gGeE])', plain)
+        if m_ and int(m_.group(1)) >= (17 if m_.group(2) in 'gG' else 16):
+            return v            # 17 significant digits carry every double exactly
         name = 'PRINTED{%s}{%r}' % (spec, v)
         self.D.kind.setdefault(name, 'printed')
         self.printed[name] = (spec, v)
@@ -1128,8 +1134,16 @@ class Interp:
         if isinstance(v, Obj) and '__format__' in v.opaque_methods:
             return to_segstr(v.opaque_methods['__format__'](self, v, [spec or ''], {}))
         if isinstance(v, ListV) and not spec:
-            # str(list): elements separated by ', ' inside brackets (numbers print as themselves)
-            out = SegStr.lit('[')
+            # str(list) / str(tuple): the repr of the elements separated by ', ' inside brackets / parentheses
+            if is_iter(v) or getattr(v, 'is_set', False):
+                raise Unsupported('text of %s' % ('an iterator object' if is_iter(v) else 'a set (its order is not fixed)'))
+            if getattr(v, 'is_array', False):
+                # numpy lays an array out by its own rules (blank-separated, a common precision for all entries)
+                raise Unsupported('text of a NumPy array')
+            tup = getattr(v, 'is_tuple', False)
+            np_kind = 'np.int64' if getattr(v, 'np_int', False) else 'np.float64' if getattr(v, 'np_elems', False) \
+                else None
+            out = SegStr.lit('(' if tup else '[')
             for i, x in enumerate(v.items):
                 if i:
                     out = out + ', '
@@ -1137,9 +1151,13 @@ class Interp:
                     out = out + repr(x)
                 elif isinstance(x, (str, SegStr)):
                     out = out + "'" + self.seg(x) + "'"
+                elif np_kind is not None and isinstance(x, Rat):
+                    out = out + (np_kind + '(') + self.seg(x) + ')'     # the repr of a NumPy scalar (NumPy >= 2)
                 else:
                     out = out + self.seg(x)
-            return out + ']'
+            if tup and len(v.items) == 1:
+                out = out + ','
+            return out + (')' if tup else ']')
         raise Unsupported('cannot print %r' % (v,))
 
     def plain(self, v):
@@ -2510,6 +2528,46 @@ class Frame:
                     self.int_store(base, v, target)
                     base.r = v
                 return
+            if isinstance(base, ListV) and isinstance(idx, ListV) and \
+                    any(isinstance(ix_, SliceV) for ix_ in idx.items[:-1]):
+                # a[:, j] = v / a[:, j, :] = table: a full slice in a leading position fans the store out over that axis
+                def fan(cur_, ixs_, val_):
+                    ix_ = ixs_[0]
+                    if len(ixs_) == 1:
+                        if isinstance(ix_, SliceV):
+                            if not (ix_.full and isinstance(val_, ListV) and len(val_) == len(cur_)):
+                                if ix_.full and isinstance(val_, (Rat, SumV)):
+                                    val_ = ListV([val_] * len(cur_))
+                                else:
+                                    raise _RaisedExc(Raised('ValueError', target))
+                            self.int_store(cur_, list(val_.items), target)
+                            cur_.items[:] = list(val_.items)
+                        else:
+                            self.int_store(cur_, val_, target)
+                            cur_.items[self.index(ix_, len(cur_), target)] = val_
+                        sync_reshape(cur_)
+                        return
+                    if isinstance(ix_, SliceV):
+                        if not ix_.full:
+                            raise Unsupported('partial slice in a leading position of a store', target,
+                                              self.module.relpath)
+                        if isinstance(val_, ListV):
+                            if len(val_) != len(cur_):
+                                raise _RaisedExc(Raised('ValueError', target))      # shape mismatch
+                            for row_, x_ in zip(cur_.items, val_.items):
+                                fan(row_, ixs_[1:], x_)
+                        elif isinstance(val_, (Rat, SumV)):
+                            for row_ in cur_.items:
+                                fan(row_, ixs_[1:], val_)
+                        else:
+                            raise Unsupported('store of %r along an axis' % (val_,), target, self.module.relpath)
+                        return
+                    if not isinstance(cur_, ListV):
+                        raise _RaisedExc(Raised('IndexError', target))
+                    fan(cur_.items[self.index(ix_, len(cur_), target)], ixs_[1:], val_)
+                fan(base, list(idx.items), v)
+                sync_reshape(base)
+                return
             if isinstance(base, ListV) and isinstance(idx, ListV):
                 cur = base
                 for ix in idx.items[:-1]:
@@ -3170,7 +3228,7 @@ class Frame:
             return base.name
         if isinstance(base, ClassInfo) and n.attr == '__module__':
             return base.module.name
-        if isinstance(base, ListV) and n.attr == 'T':
+        if isinstance(base, ListV) and n.attr == 'T' and not getattr(base, 'is_array', False):
             if not any(isinstance(x, ListV) for x in base.items):
                 return base                 # the transpose of a 1-D array is the array itself
             if not all(isinstance(x, ListV) for x in base.items):
@@ -3195,6 +3253,22 @@ class Frame:
                 return C(tot_)
             if len(sh) == 1:
                 return base
+            if len(sh) == 2 and all(isinstance(r_, ListV) and len(r_) == sh[1] and
+                                    not any(isinstance(x_, ListV) for x_ in r_.items) for r_ in base.items):
+                # the transpose of a table is a view: its rows are the columns of the table, and what is stored into
+                # them (element by element or in place) is stored into the table
+                cols_ = []
+                for j_ in range(sh[1]):
+                    col_ = ListV([])
+                    col_.items = ViewItems([(r_, j_) for r_ in base.items])
+                    col_.is_array = True
+                    col_.dtype = getattr(base, 'dtype', None)
+                    cols_.append(col_)
+                tv_ = ListV(cols_)
+                tv_.is_array = True
+                tv_.dtype = getattr(base, 'dtype', None)
+                tv_.view_of = (base, [1, 0])
+                return tv_
             tv_ = nd_transpose(base, list(reversed(range(len(sh)))))
             tv_.view_of = (base, list(reversed(range(len(sh)))))
             return tv_
@@ -3440,16 +3514,19 @@ class Frame:
             if self.I.table_atoms is not None and isinstance(node, ast.Dict) and id(node) in self.I.table_names:
                 # a table the rule keeps symbolic, stored at module level
                 return Frame(self.I, m, {}, None, None).table_dict(self.I.table_names[id(node)], node)
+            if isinstance(node, (ast.Dict, ast.List, ast.Set)) or (
+                    isinstance(node, ast.Call) and isinstance(node.func, ast.Name) and
+                    node.func.id in ('dict', 'list', 'set') and not node.args and not node.keywords):
+                nm_ = self.I.table_revised(m, node)
+                if nm_ is not None:
+                    # import-time code other than `name.update({...})` writes the container (a helper, an alias, a
+                    # loop, update(zip(...)), name[key] = value): every reader sees what the module body leaves behind
+                    return self.I.module_body(m, n)[nm_]
             if isinstance(node, (ast.Dict, ast.List)) and (
                     isinstance(node, ast.List) or len(node.keys) <= 3):
                 # small module-level container: mutable global state shared by every call in this run
                 return self.I.eval_global(m, node)
             if isinstance(node, ast.Dict):
-                nm_ = self.I.table_revised(m, node)
-                if nm_ is not None:
-                    # import-time code other than `name.update({...})` writes the table (a helper, an alias, a loop,
-                    # update(zip(...)), name[key] = value): every reader sees what the module body leaves behind
-                    return self.I.module_body(m, n)[nm_]
                 return TableRef(m, node)
             # any other module-level value is created once when the module is imported (a sentinel object() keeps
             # its identity)
@@ -4053,6 +4130,9 @@ def builtin_call(I, fr, name, args, kwargs, n):
         v = args[0]
         if isinstance(v, ListV):
             r_ = ListV(take(v))
+            if (getattr(v, 'is_array', False) and not any(isinstance(x_, ListV) for x_ in v.items)) or \
+                    getattr(v, 'np_elems', False):
+                r_.np_elems = True      # list(array) / tuple(array) hand out NumPy scalars (array.tolist() does not)
             if getattr(v, 'np_int', False):
                 r_.np_int = True            # the entries are still numpy integers
             if name == 'tuple':
@@ -4925,6 +5005,20 @@ def abstract_str_method(I, fr, b, name, args, kwargs, n):
             I.hazards.append((n, '%s(%r) of user-controlled text %r' % (name, args[0], sb)))
             return False
         return piece.is_literal() and piece.literal() == args[0]
+    if name in ('partition', 'rpartition') and len(args) == 1 and isinstance(args[0], str) and \
+            args[0] not in I.sym_strings and args[0] and not kwargs:
+        # s.rpartition(sep) = (s[:i], sep, s[i+len(sep):]) with i = s.rfind(sep); ('', '', s) when sep is not there
+        sep = args[0]
+        i_ = sb.rfind(sep) if name == 'rpartition' else sb.find(sep, 0)
+        if i_ is None:
+            raise Unsupported('%s(): user text after the last literal occurrence' % name, n)
+        if i_ < 0:
+            parts = ['', '', I.plain(sb)] if name == 'rpartition' else [I.plain(sb), '', '']
+        else:
+            parts = [I.plain(sb.slice(0, i_)), sep, I.plain(sb.slice(i_ + len(sep), None))]
+        r_ = ListV(parts)
+        r_.is_tuple = True
+        return r_
     raise Unsupported('method %s on an abstract string' % name, n)
 
 
@@ -5412,6 +5506,78 @@ def _inspect_signature(I, fr, args, kwargs, n):
     return Obj('signature', attrs={'parameters': ps}, closed=True)
 
 
+def _getfullargspec(I, fr, args, kwargs, n):
+    """inspect.getfullargspec(f): the names as the code object has them (a bound method keeps its first parameter, wrapper
+    chains are not followed)"""
+    fn = _arg(args, kwargs, 0, 'func')
+    _sig, pos, _all = _signature_of(I, fn, n)
+    a = None
+    if isinstance(fn, FuncRef):
+        a = fn.fn.args
+        if unknown_decorators(fn.fn) and not getattr(fn, 'raw', False):
+            dec = I.decorated_value(fn.module, fn.fn, fn.owner)
+            a = dec.fn.args
+    elif isinstance(fn, ClassInfo):
+        got = I.repo.find_method(fn, '__init__', missing_ok=True)
+        a = got[1].args if got else None
+    r = Obj('FullArgSpec()', closed=True)
+    names = ['args', 'varargs', 'varkw', 'defaults', 'kwonlyargs', 'kwonlydefaults', 'annotations']
+    r.attrs['args'] = ListV(list(pos))
+    r.attrs['varargs'] = a.vararg.arg if a is not None and a.vararg else None
+    r.attrs['varkw'] = a.kwarg.arg if a is not None and a.kwarg else None
+    r.attrs['kwonlyargs'] = ListV([x.arg for x in a.kwonlyargs] if a is not None else [])
+    for nm in ('defaults', 'kwonlydefaults', 'annotations'):
+        r.attrs[nm] = Obj('getfullargspec().%s (not modelled)' % nm, closed=True)
+    r.attrs['__fields__'] = ListV(list(names))
+    return r
+
+
+def _dataclass_replace(I, fr, args, kwargs, n):
+    """dataclasses.replace(obj, **changes): a new object of the same class from the fields of obj, overridden"""
+    o = args[0] if args else None
+    if not (isinstance(o, Obj) and o.ci is not None and len(args) == 1):
+        raise Unsupported('dataclasses.replace of %r' % (o,), n)
+    fields = []
+    for k_ in reversed(o.ci.mro):
+        for nm, _d in k_.ann_fields:
+            if nm not in fields:
+                fields.append(nm)
+    if not fields:
+        raise _RaisedExc(Raised('TypeError', n))                # not a dataclass instance
+    for nm in kwargs:
+        if nm not in fields:
+            raise _RaisedExc(Raised('TypeError', n))
+    kw = {nm: fr.obj_attr(o, nm, n) for nm in fields}
+    kw.update(kwargs)
+    return fr.apply(o.ci, [], kw, n)
+
+
+def _np_repeat(I, fr, args, kwargs, n):
+    """np.repeat(a, repeats): every entry repeated (a scalar count, or one count per entry)"""
+    a = _arg(args, kwargs, 0, 'a')
+    reps = _arg(args, kwargs, 1, 'repeats')
+    if _arg(args, kwargs, 2, 'axis', None) is not None:
+        raise Unsupported('np.repeat along an axis', n)
+    items = list(a.items) if isinstance(a, ListV) else [a] if isinstance(a, Rat) else None
+    if items is None or any(isinstance(x, ListV) for x in items):
+        raise Unsupported('np.repeat of %r' % (a,), n)
+    if isinstance(reps, ListV):
+        if len(reps.items) != len(items):
+            raise _RaisedExc(Raised('ValueError', n))           # operands could not be broadcast together
+        counts = [_as_int(c_, n) for c_ in reps.items]
+    else:
+        counts = [_as_int(reps, n)] * len(items)
+    if any(c_ < 0 for c_ in counts):
+        raise _RaisedExc(Raised('ValueError', n))
+    out = []
+    for x, c_ in zip(items, counts):
+        out.extend([x] * c_)
+    r = ListV(out)
+    r.is_array = True
+    r.dtype = getattr(a, 'dtype', None)
+    return r
+
+
 def code_object(I, fn, n=None):
     _sig, pos, varnames = _signature_of(I, fn, n)
     names = ListV(list(varnames))
@@ -5703,6 +5869,14 @@ def _namedtuple(I, fr, args, kwargs, n):
     if not isinstance(fields, ListV) or not all(isinstance(f, str) for f in fields.items):
         raise Unsupported('namedtuple fields', n)
     names = list(fields.items)
+    dfl = kwargs.get('defaults')
+    if dfl is not None and not isinstance(dfl, ListV):
+        raise Unsupported('namedtuple defaults', n)
+    kwargs.get('module')
+    # defaults belong to the rightmost fields
+    defaults = dict(zip(names[len(names) - len(dfl.items):], dfl.items)) if dfl is not None else {}
+    if dfl is not None and len(dfl.items) > len(names):
+        raise _RaisedExc(Raised('TypeError', n))
 
     class NT:
         pass
@@ -5713,8 +5887,15 @@ def _namedtuple(I, fr, args, kwargs, n):
         r = Obj('%s()' % tname, closed=True)
         for nm, v in zip(names, vals):
             r.attrs[nm] = v
+        if len(vals) > len(names):
+            raise _RaisedExc(Raised('TypeError', n))
         for nm, v in k.items():
+            if nm in r.attrs or nm not in names:
+                raise _RaisedExc(Raised('TypeError', n))        # given twice / unknown field
             r.attrs[nm] = v
+        for nm in names:
+            if nm not in r.attrs and nm in defaults:
+                r.attrs[nm] = defaults[nm]
         if set(r.attrs) != set(names):
             raise _RaisedExc(Raised('TypeError', n))
         r.attrs['__fields__'] = ListV(list(names))
@@ -6608,6 +6789,7 @@ NATIVE = {
     'numpy.mean': _np_mean,
     'numpy.isclose': _np_isclose,
     'collections.namedtuple': _namedtuple,
+    'inspect.getfullargspec': _getfullargspec, 'dataclasses.replace': _dataclass_replace, 'numpy.repeat': _np_repeat,
     'itertools.repeat': _itertools_repeat,
     'numpy.argmin': _arg_extremum('min'),
     'numpy.nanargmin': _arg_extremum('min'),
